@@ -61,7 +61,14 @@ def int_expr(rng, vars_, dom, depth=0):
         return Bin('*', V(rng.choice(vars_)), K(rng.randrange(2, 4)), dom)
     if r < 0.8:
         return MinMax(rng.choice(['min', 'max']), V(rng.choice(vars_)), int_expr(rng, vars_, dom, depth + 1))
-    if r < 0.87:
+    if r < 0.84:
+        # an immediately applied closure whose parameter carries the name of a rule variable
+        v = rng.choice(vars_)
+        return ClosureApp(v, Bin('+', V(v), V(rng.choice(vars_)), dom), Bin('+', V(v), K(rng.randrange(1, dom)), dom))
+    if r < 0.88:
+        v = rng.choice(vars_)
+        return MatchE(V(rng.choice(vars_)), rng.randrange(dom), V(v), v, Bin('+', V(v), K(1), dom))
+    if r < 0.93:
         # a block that shadows a rule variable, using the outer one in its own initialiser
         v = rng.choice(vars_)
         return LetIn(v, Bin('+', V(v), K(rng.randrange(1, dom)), dom), Bin('*', V(v), K(rng.randrange(2, 4)), dom) if rng.random() < 0.5 else
@@ -91,9 +98,13 @@ def gen_cond(rng, cfg, fresh, bound):
     r = rng.random()
     if r < 0.6 or not bound:
         return If(bool_expr(rng, bound, cfg.dom)), []
-    if r < 0.8:
+    if r < 0.74:
         v = fresh.new(rng)
         return Let(v, int_expr(rng, bound, cfg.dom)), [v]
+    if r < 0.8:
+        # a tuple pattern: one item binds two variables
+        v, v2 = fresh.new(rng), fresh.new(rng)
+        return LetTup([v, v2], [int_expr(rng, bound, cfg.dom), V(rng.choice(bound))]), [v, v2]
     v = fresh.new(rng)
     return IfLet(v, MkOpt(bool_expr(rng, bound, cfg.dom), int_expr(rng, bound, cfg.dom))), [v]
 
